@@ -44,6 +44,53 @@ def sched_table(env) -> List[List[Any]]:
     return out
 
 
+def input_tables(sim, env) -> Dict[str, Any]:
+    """the timed inputs as data, read from the scenario's own files: request departures and the price table with,
+    for every row, the stations it names (by id, or by enclosing region - decided with h3 at the region's resolution)"""
+    import csv
+
+    import h3
+
+    from nrel.hive.model.sim_time import SimTime
+
+    cfg = env.config.input_config
+    out: Dict[str, Any] = {"reqfile": [], "pricefile": []}
+    has_fleets = len(env.fleet_ids) > 0
+    with open(cfg.requests_file, encoding="utf-8-sig") as f:
+        for row in csv.DictReader(f):
+            fleet = row.get("fleet_id") or None
+            if has_fleets != bool(fleet):
+                continue        # a request whose membership does not fit the scenario is never admitted
+            try:
+                dep = int(SimTime.build(row["departure_time"]))
+            except Exception:
+                continue
+            out["reqfile"].append([row["request_id"], dep])
+    if cfg.charging_price_file:
+        with open(cfg.charging_price_file, encoding="utf-8-sig") as f:
+            for k, row in enumerate(csv.DictReader(f)):
+                try:
+                    t = int(SimTime.build(row["time"]))
+                    price = tracer.q(float(row["price_kwh"]), tracer.M_SCALE)
+                except Exception:
+                    continue
+                if "station_id" in row:
+                    target, kind = row["station_id"], "station_id"
+                    sts = [target] if target in sim.stations else []
+                else:
+                    target, kind = row["geoid"], "region"
+                    try:
+                        res = h3.h3_get_resolution(target)
+                        sts = sorted(s.id for s in sim.stations.values()
+                                     if h3.h3_get_resolution(s.geoid) >= res and h3.h3_to_parent(s.geoid, res) == target)
+                        if res > sim.sim_h3_search_resolution:
+                            kind = "region_finer_than_search"
+                    except Exception:
+                        sts = []
+                out["pricefile"].append({"time": t, "plug": row["charger_id"], "price": price, "sts": sts, "kind": kind})
+    return out
+
+
 def crank_traced(rp, steps: int, tr: tracer.Tracer, init_extra: Optional[Dict[str, Any]] = None):
     """advance with the real co-simulation entry point, hooks delivering to `tr`"""
     from nrel.hive.app import hive_cosim
@@ -54,6 +101,8 @@ def crank_traced(rp, steps: int, tr: tracer.Tracer, init_extra: Optional[Dict[st
     if tr.proj is None:
         extra = dict(init_extra or {})
         extra.setdefault("sched", sched_table(rp.e))
+        for k, v in input_tables(rp.s, rp.e).items():
+            extra.setdefault(k, v)
         tr.init(rp.s, rp.e, extra)
     verif_hooks.install(tr)
     try:
@@ -88,7 +137,7 @@ def run_adv(seed: int, work: Path, trace_path: Path, *, steps: int = 40, mix: Op
     rng = random.Random(seed)
     w = adv.gen_world(rng, n_steps=steps, **(world_kwargs or {}))
     scen = world.write_world(work / f"world{seed}", w)
-    rp = world.load(scen, work / "out", write_outputs=write_outputs, suffix=f"s{seed}")
+    rp = world.load(scen, work / "out", write_outputs=write_outputs, suffix=f"s{seed}", lazy=bool(w.get("lazy")))
     tr = tracer.Tracer(trace_path, with_route=with_route, with_index=with_index, run_id=f"adv{seed}")
     emit = _emit_to(tr)
     mix = mix or rng.choice(["adv", "adv+builtin", "builtin+adv", "adv+builtin+adv"])
